@@ -93,11 +93,13 @@ ChooseIndex ==
      THEN \E idxs \in IdxTuplesR(in.a.labs, in.mode) : in' = [in EXCEPT !.idxs = idxs]
      ELSE \E idxs \in IdxTuples(in.a.labs, in.mode) : in' = [in EXCEPT !.idxs = idxs]
 
+KeepIdx(idxs) == [i \in 1..Len(idxs) |-> IF idxs[i].k = "sc" THEN IxLi(<<idxs[i].v>>) ELSE idxs[i]]
 \* ph 2 -> 3: apply the operator
 Apply ==
   /\ ph = 2 /\ ph' = 3 /\ in' = in
   /\ out' = Take(in.a, in.idxs, in.mode, in.tol)
-  /\ (Emit => PrintT(ToJson([op |-> "take", in |-> in, out |-> out'])))
+  \* keep: the same read with keepdims=True - a scalar index keeps its dimension, with that one label
+  /\ (Emit => PrintT(ToJson([op |-> "take", in |-> in, out |-> out', keep |-> Take(in.a, KeepIdx(in.idxs), in.mode, in.tol)])))
 
 Next == ChooseArray \/ ChooseIndex \/ Apply
 
@@ -116,6 +118,11 @@ ResultSound ==
     /\ Rng(r.cells) \subseteq Rng(a.cells)
     /\ \A i \in 1..NDim(r) : HasDim(a, r.dims[i])
     /\ \A i \in 1..NDim(r)-1 : DimPos(a, r.dims[i]) < DimPos(a, r.dims[i+1])
+\* keepdims changes the shape only: same outcome class, same cells in the same order, every dimension kept
+KeepDimsLaw ==
+  ph = 3 => LET k == Take(in.a, KeepIdx(in.idxs), in.mode, in.tol) IN
+            /\ k.ok <=> out.ok
+            /\ out.ok => (k.val.cells = out.val.cells /\ k.val.dims = in.a.dims)
 \* an error is raised iff some dimension's index does not resolve
 ErrorIffUnresolved ==
   ph = 3 => (out.ok <=> \A i \in 1..NDim(in.a) : ResolveIndex(in.a, in.idxs, in.mode, in.tol)[i].ok)
